@@ -497,11 +497,35 @@ pub fn add_common_clash(src: &mut Src, s: &mut Scenario) -> bool {
 
 /// Change the registered metrics through their second handles (generated: vectors are reset and refilled with the same tuples and new
 /// payloads, reset and left empty, lose one child or gain one; gauges are set again) and return the scenario that describes the new state.
-pub fn mutate(src: &mut Src, s: &Scenario, handles: &[Handle]) -> (Scenario, Vec<String>) {
+pub fn mutate(src: &mut Src, s: &Scenario, handles: &mut Vec<Handle>, reg: &Registry) -> (Scenario, Vec<String>) {
     let mut s2 = s.clone();
     let mut log = vec![];
     let mut fresh = 900_000u32;
-    for (i, (c, h)) in s2.colls.iter_mut().zip(handles).enumerate() {
+    // a quarter of the epochs (scenarios without composite collectors): one collector is unregistered, and in half of these
+    // registered again at once (its metric keeps its state)
+    if s2.bundles.is_empty() && s2.colls.len() >= 2 && src.chance(64) {
+        let k = src.below(s2.colls.len());
+        match reg.unregister(build_collector(&s2.colls[k])) {
+            Ok(()) => {
+                if src.chance(128) {
+                    let (c, h) = build_collector_h(&s2.colls[k]);
+                    match reg.register(c) {
+                        Ok(()) => {
+                            handles[k] = h;
+                            log.push(format!("#{} unregistered and a collector with the same descriptor and contents registered", k));
+                        }
+                        Err(e) => log.push(format!("#{} unregistered; REGISTERING IT AGAIN FAILED: {}", k, e)),
+                    }
+                } else {
+                    s2.colls.remove(k);
+                    handles.remove(k);
+                    log.push(format!("#{} unregistered", k));
+                }
+            }
+            Err(e) => log.push(format!("UNREGISTER OF #{} FAILED: {}", k, e)),
+        }
+    }
+    for (i, (c, h)) in s2.colls.iter_mut().zip(handles.iter()).enumerate() {
         if matches!(h, Handle::Fixed) || !src.chance(150) {
             continue;
         }
